@@ -640,7 +640,14 @@ func genPay(r *rand.Rand) *payIn {
 		}
 		small := func() amt {
 			a := randAmt(r, ae)
-			a.V %= 1 << 26
+			// Convert raises an amount coarser than the payment currency to that
+			// precision before multiplying: keep the raised value below 2^26 so that
+			// the product with the rate stays inside the float-exact domain
+			lim := int64(1 << 26)
+			for e := ae; e < pe; e++ {
+				lim /= 10
+			}
+			a.V %= lim
 			return a
 		}
 		switch r.Intn(6) {
@@ -1480,7 +1487,10 @@ func judgePay(c *core.Ctx, t tcase, o goOut, resp []string, key string) {
 			c.Count("pay:no-lines-previous-total-reset", 1)
 		}
 	} else {
-		want, class := specTotal(p, pe)
+		want, inDomain, fam := specTotal(p, pe)
+		for k, n := range fam {
+			c.Count(k, int64(n))
+		}
 		if want != spec {
 			c.TieBroken("drive:C20/payment-spec", fmt.Sprintf("Lean spec total %s vs Go spec total %s", spec, want), t)
 			return
@@ -1501,8 +1511,11 @@ func judgePay(c *core.Ctx, t tcase, o goOut, resp []string, key string) {
 			c.Fail("", fmt.Sprintf("payment total %s is not the sum of its line totals %s", goTotal, sum), t)
 			return
 		}
-		if goTotal != want {
-			c.Fail(class, fmt.Sprintf("payment total %s, but the sum over the lines of debit minus credit converted with the declared rates is %s", goTotal, want), t)
+		if !inDomain {
+			// a product beyond 2^52: Multiply's float64 detour is not exact there (C05's domain); never guessed
+			c.Count("pay:skipped-spec-outside-float-exact-domain", 1)
+		} else if goTotal != want {
+			c.Fail("", fmt.Sprintf("payment total %s, but the sum over the lines of debit minus credit converted with the declared rates (exact product rounded once to the payment currency) is %s", goTotal, want), t)
 			return
 		}
 	}
@@ -1518,29 +1531,32 @@ func judgePay(c *core.Ctx, t tcase, o goOut, resp []string, key string) {
 }
 
 // specTotal: Σ over the lines of round(debit·rate) − round(credit·rate), exact
-// product rounded half away from zero to the payment currency's precision.
-// The class names the input family in which GOBL's two-step conversion
-// (product at the amount's precision, then rescaling) can differ.
-func specTotal(p *payIn, pe uint32) (string, string) {
+// product rounded half away from zero once, to the payment currency's
+// precision, whatever the precision of the amount (ExchangeRate.Convert as
+// repaired by 6f2aa78; a difference is a violation).  The second result says
+// whether every conversion stays inside the float-exact domain of
+// Props/C20 `convert_is_exact_rounding`: |value·10^max(pe−e,0)·rate value| < 2^52
+// and rate decimals + max(e−pe,0) ≤ 22.
+func specTotal(p *payIn, pe uint32) (string, bool, map[string]int) {
 	total := big.NewInt(0)
-	class := ""
+	inDomain := true
+	fam := map[string]int{}
 	scale := new(big.Int).Exp(big.NewInt(10), big.NewInt(int64(pe)), nil)
+	lim := new(big.Int).Lsh(big.NewInt(1), 52)
 	for _, l := range p.Lines {
 		rate := big.NewRat(1, 1)
-		converted := false
+		var rx *rateX
 		if l.Currency != "" && l.Currency != p.Currency && (l.Debit != nil || l.Credit != nil) {
-			found := false
-			for _, x := range p.Rates {
+			for i, x := range p.Rates {
 				if x.From == l.Currency && x.To == p.Currency {
 					den := new(big.Int).Exp(big.NewInt(10), big.NewInt(int64(x.Amount.E)), nil)
 					rate = new(big.Rat).SetFrac(big.NewInt(x.Amount.V), den)
-					found = true
-					converted = true
+					rx = &p.Rates[i]
 					break
 				}
 			}
-			if !found {
-				return "-", ""
+			if rx == nil {
+				return "-", true, fam
 			}
 		}
 		side := func(a *amt, sign int64) {
@@ -1561,16 +1577,30 @@ func specTotal(p *payIn, pe uint32) (string, string) {
 				n.Neg(n)
 			}
 			total.Add(total, n.Mul(n, big.NewInt(sign)))
-			if converted && class == "" {
+			if rx != nil {
+				switch {
+				case a.E < pe:
+					fam["pay:converted-amount-coarser-than-target"]++
+				case a.E > pe:
+					fam["pay:converted-amount-finer-than-target"]++
+				default:
+					fam["pay:converted-amount-at-target-precision"]++
+				}
+				up, extra := int64(0), int64(0)
 				if a.E < pe {
-					class = "convert-amount-coarser-than-target"
-				} else if a.E > pe {
-					class = "convert-double-rounding"
+					up = int64(pe - a.E)
+				} else {
+					extra = int64(a.E - pe)
+				}
+				prod := new(big.Int).Mul(big.NewInt(a.V), new(big.Int).Exp(big.NewInt(10), big.NewInt(up), nil))
+				prod.Mul(prod, big.NewInt(rx.Amount.V)).Abs(prod)
+				if prod.Cmp(lim) >= 0 || int64(rx.Amount.E)+extra > 22 {
+					inDomain = false
 				}
 			}
 		}
 		side(l.Debit, 1)
 		side(l.Credit, -1)
 	}
-	return fmt.Sprintf("%s:%d", total, pe), class
+	return fmt.Sprintf("%s:%d", total, pe), inDomain, fam
 }
